@@ -990,6 +990,13 @@ func (e *env) emit(s *Emit) {
 			panic(Unspec("nil piped into a safe writer"))
 		}
 		e.out.WriteString(w(Print(v)))
+		for _, m := range s.More {
+			mv := e.evalAt(m, s)
+			if mv == nil {
+				panic(Unspec("nil argument of a safe writer"))
+			}
+			e.out.WriteString(w(Print(mv)))
+		}
 		return
 	}
 	if v == nil {
